@@ -186,6 +186,7 @@ type raceWorker struct {
 	ps    []uint // own plain ids
 	kinds map[string]bool
 	errs  int
+	first bool
 }
 
 func (w *raceWorker) next() uint { w.n++; return w.base + w.n }
@@ -324,8 +325,9 @@ func (w *raceWorker) opRelated(h *gorm.DB) string {
 func (w *raceWorker) opMutual(h *gorm.DB) string {
 	lo, hi := w.base, w.base+9999
 	k := w.rng.Intn(9)
-	if len(w.as) == 0 {
-		k = 0
+	if len(w.as) == 0 && (k == 4 || k == 6) {
+		// first use enters through a different model type per goroutine (A, B, O/N, C/D/E)
+		k = []int{0, 1, 5, 7, 2, 3}[w.g%6]
 	}
 	switch k {
 	case 0:
@@ -536,7 +538,11 @@ func (w *raceWorker) opPlain(h *gorm.DB) string {
 // readers: read-only operations on pre-seeded rows (goroutine g reads the rows of seed block g)
 func (w *raceWorker) opReader(h *gorm.DB) string {
 	lo, hi := w.base, w.base+9999
-	switch w.rng.Intn(4) {
+	k := w.rng.Intn(4)
+	if w.first {
+		k, w.first = 0, false
+	}
+	switch k {
 	case 0:
 		w.kinds["r-find"] = true
 		var us []RUser
@@ -601,20 +607,21 @@ func runRaceProg(p raceProg, serial bool) raceRun {
 	if err != nil {
 		panic(err)
 	}
-	var h *gorm.DB
-	switch p.Handle {
-	case "session":
-		h = shared.Session(&gorm.Session{})
-	case "ctx":
-		h = shared.WithContext(context.Background())
-	case "where":
-		h = shared.Where("id >= ?", 0).Where("age >= ?", 0).Session(&gorm.Session{})
-	case "leadingOr":
-		h = shared.Or("id < ?", 0).Where("age >= ?", 0).Session(&gorm.Session{})
-	default:
-		h = shared
+	mk := func() *gorm.DB {
+		switch p.Handle {
+		case "session":
+			return shared.Session(&gorm.Session{})
+		case "ctx":
+			return shared.WithContext(context.Background())
+		case "where":
+			return shared.Where("id >= ?", 0).Where("age >= ?", 0).Session(&gorm.Session{})
+		case "leadingOr":
+			return shared.Or("id < ?", 0).Where("age >= ?", 0).Session(&gorm.Session{})
+		default:
+			return shared
+		}
 	}
-	op := func(w *raceWorker) string {
+	op := func(w *raceWorker, h *gorm.DB) string {
 		switch p.Family {
 		case "related":
 			return w.opRelated(h)
@@ -627,21 +634,38 @@ func runRaceProg(p raceProg, serial bool) raceRun {
 		}
 	}
 	if !p.Cold {
-		// warm: every operation kind once, serially, on a reserved id block, before the goroutines start
+		// warm: every operation kind, serially, on a reserved id block, before the goroutines start
 		w := &raceWorker{g: 90, base: 900000, rng: rand.New(rand.NewSource(p.Seed + 5)), kinds: map[string]bool{}}
-		for i := 0; i < 40; i++ {
-			op(w)
+		hw := mk()
+		for _, m := range c07AllModels {
+			st := &gorm.Statement{DB: shared}
+			_ = st.Parse(m)
 		}
+		for i := 0; i < 40; i++ {
+			op(w, hw)
+		}
+	}
+	// ONE shared handle per operation index (all goroutines use handles[i] for their i-th operation), derived before the
+	// goroutines start and never used before: "first use" of a reusable handle also happens concurrently
+	handles := make([]*gorm.DB, p.Ops)
+	for i := range handles {
+		if p.Handle == "db" || i == 0 || i%3 != 0 {
+			if i > 0 {
+				handles[i] = handles[0]
+				continue
+			}
+		}
+		handles[i] = mk()
 	}
 	workers := make([]*raceWorker, p.G)
 	outs := make([][]string, p.G)
 	for g := 0; g < p.G; g++ {
-		workers[g] = &raceWorker{g: g, base: uint(g+1) * 10000, rng: rand.New(rand.NewSource(p.Seed*131 + int64(g))), kinds: map[string]bool{}}
+		workers[g] = &raceWorker{g: g, base: uint(g+1) * 10000, rng: rand.New(rand.NewSource(p.Seed*131 + int64(g))), kinds: map[string]bool{}, first: true}
 	}
 	body := func(g int) {
 		w := workers[g]
 		for i := 0; i < p.Ops; i++ {
-			s := op(w)
+			s := op(w, handles[i])
 			if strings.Contains(s, " err:") || strings.Contains(s, " locked") {
 				w.errs++
 			}
@@ -788,6 +812,18 @@ var f11Funcs = map[string]bool{"clause.Where.Build": true, "clause.buildExprs": 
 
 func inSet(set map[string]bool, f string) bool { return f == "?" || set[f] }
 
+// isParser: the frame is one of the schema-parsing functions (they only run during the first use of a model type)
+func isParser(f string) bool { return f10Funcs[f] }
+
+// classifyPair maps a normalised race pair to the id of the listed finding whose pattern it matches ("unlisted" otherwise).
+//   F10: cold cache, related model types, BOTH top gorm frames are schema-parser functions — except the pair
+//        {parseRelation, parseRelation}: parseRelation's own accesses are the Mux-protected back-reference insert and appends
+//        to its own schema, which cannot race with each other on the unchanged tree.
+//   F12: cold cache, related model types, EXACTLY ONE frame is a schema-parser function (a goroutine already uses a schema
+//        that another goroutine's parser is still writing: handed out unfinished by getOrParse, or receiving a late
+//        back reference under Mux while readers do not lock).
+//   F11: the shared handle's first WHERE element is a single Or; both frames are clause.Where.Build / clause.buildExprs.
+// "?" (stack not restorable by the detector) is compatible with either side.
 func classifyPair(p racePair, prog raceProg) string {
 	if p.A == "" && p.B == "" {
 		return "no-gorm-frame"
@@ -795,8 +831,13 @@ func classifyPair(p racePair, prog raceProg) string {
 	if p.A == "?" && p.B == "?" {
 		return "unrestorable"
 	}
-	if inSet(f10Funcs, p.A) && inSet(f10Funcs, p.B) && prog.Cold && (prog.Family == "mutual" || prog.Family == "related" || prog.Family == "readers") {
+	coldRelated := prog.Cold && prog.Family != "unrelated"
+	pa, pb := isParser(p.A) || p.A == "?", isParser(p.B) || p.B == "?"
+	if coldRelated && pa && pb && !(p.A == "schema.Schema.parseRelation" && p.B == "schema.Schema.parseRelation") {
 		return "F10"
+	}
+	if coldRelated && (isParser(p.A) != isParser(p.B)) && p.A != "" && p.B != "" {
+		return "F12"
 	}
 	if inSet(f11Funcs, p.A) && inSet(f11Funcs, p.B) && prog.Handle == "leadingOr" {
 		return "F11"
@@ -1041,6 +1082,12 @@ func judgeRaceOutcomes(r *Result, outcomes []raceOutcome, probe string) {
 				} else {
 					r.Violate(Violation{Kind: "e2e", Suite: "race", Input: p, Observed: pr, Expected: "no data race"})
 				}
+			case "F12":
+				if listed("F12-C07-schema-in-use-still-written") {
+					r.KnownFinding("F12-C07-schema-in-use-still-written", "data race between a schema parser and a goroutine already using that schema ("+pr.A+" ~ "+pr.B+")")
+				} else {
+					r.Violate(Violation{Kind: "e2e", Suite: "race", Input: p, Observed: pr, Expected: "no data race"})
+				}
 			case "F11":
 				if listed("F11-C07-where-build-swap") {
 					r.KnownFinding("F11-C07-where-build-swap", "data race in clause.Where.Build on a shared handle whose first WHERE element is a single Or")
@@ -1075,12 +1122,12 @@ func c07RaceParent(r *Result, rng *rand.Rand, tier string) {
 	r.Note("race binary built in %.1fs (go build -race -tags verif)", time.Since(t0).Seconds())
 	// probes re-confirming the listed findings, each in its own subprocess (the detector reports one stack pair once per process)
 	probes := []raceProg{
-		{Seed: 11, G: 8, Cold: true, Family: "mutual", Handle: "db", Ops: 6},
-		{Seed: 12, G: 8, Cold: false, Family: "readers", Handle: "leadingOr", Ops: 8},
+		{Seed: 11, G: 16, Cold: true, Family: "mutual", Handle: "db", Ops: 4},
+		{Seed: 12, G: 16, Cold: false, Family: "readers", Handle: "leadingOr", Ops: 9},
 	}
 	for i, pp := range probes {
 		seen := false
-		for attempt := 0; attempt < 3 && !seen; attempt++ {
+		for attempt := 0; attempt < 8 && !seen; attempt++ {
 			pp.Seed += int64(attempt) * 100
 			outs, note := runRaceChild([]raceProg{pp}, 60*time.Second)
 			if note != "" {
@@ -1088,7 +1135,7 @@ func c07RaceParent(r *Result, rng *rand.Rand, tier string) {
 			}
 			for _, o := range outs {
 				for _, pr := range o.Pairs {
-					if c := classifyPair(pr, o.Prog); c == "F10" || c == "F11" {
+					if c := classifyPair(pr, o.Prog); c == "F10" || c == "F11" || c == "F12" {
 						seen = true
 					}
 				}
@@ -1096,7 +1143,7 @@ func c07RaceParent(r *Result, rng *rand.Rand, tier string) {
 			judgeRaceOutcomes(r, outs, "probe")
 		}
 		if !seen {
-			r.Note("probe %d (%s): listed finding did not reproduce in 3 runs (scheduling dependent)", i, pp.Family+"/"+pp.Handle)
+			r.Note("probe %d (%s): listed finding did not reproduce in 8 runs (scheduling dependent)", i, pp.Family+"/"+pp.Handle)
 		}
 	}
 	var progs []raceProg
